@@ -389,6 +389,9 @@ fn neighbour(k: usize, i: usize) -> Frag {
         4 => func_member("modifier", "", "", true, format!("m{}", i)),
         5 => func_member("constructor", "", "payable", true, String::new()),
         6 => node("EventDefinition", vec![T("event"), crate::synth::P::S(format!("Ev{}", i)), T("("), T(")"), T(";")]),
+        8 => var_member("uint256", "private", "constant", format!("_K{}", i)),
+        9 => var_member("address", "public", "immutable", format!("im{}", i)),
+        10 => var_member("mapping", "", "", format!("mp{}", i)),
         _ => node("StructDefinition", vec![T("struct"), crate::synth::P::S(format!("St{}", i)), T("{"), C(ty("uint256")), T("a"), T(";"), T("}")]),
     }
 }
@@ -462,7 +465,7 @@ pub fn c06(tier: Tier) -> i32 {
         for kw in kinds.iter() {
             items.push(item_text(format!("alone:{}:{}", kw.join(" "), label), vec![as_item(kw, "C", vec![mk(0)])]));
         }
-        for nk in 0..8 {
+        for nk in 0..11 {
             items.push(item_text(format!("before:{}:n{}", label, nk), vec![as_item(&["contract"], "C", vec![neighbour(nk, 1), mk(0)])]));
             items.push(item_text(format!("after:{}:n{}", label, nk), vec![as_item(&["contract"], "C", vec![mk(0), neighbour(nk, 1)])]));
         }
@@ -1001,6 +1004,11 @@ pub fn c08(tier: Tier) -> i32 {
         ("address.ctor", "address s0 ; constructor ( ) { s0 = msg . sender ; }".into()),
         ("private.ctor", "bytes32 private s0 ; constructor ( bytes32 k ) { s0 = k ; }".into()),
         ("bytes32.ctor.conversion", "bytes32 s0 ; constructor ( uint256 seed ) { s0 = bytes32 ( seed ) ; }".into()),
+        // constant / immutable after and before a visibility keyword
+        ("public.constant", "uint256 public constant s0 = 3 ;".into()),
+        ("constant.internal", "uint256 constant internal s0 = 3 ;".into()),
+        ("private.immutable.ctor", "uint256 private immutable s0 ; constructor ( ) { s0 = 7 ; }".into()),
+        ("immutable.public.ctor", "address immutable public s0 ; constructor ( ) { s0 = msg . sender ; }".into()),
     ];
     // the contract kind that holds the declaration when it is placed in a contract of its own
     let holder_kinds: Vec<&str> = vec!["contract H {", "abstract contract H {"];
@@ -1247,7 +1255,7 @@ pub fn c08(tier: Tier) -> i32 {
     absorb(&mut run, sw3, "parameters");
     finish(
         run,
-        "states = files of the write-site space W: a state variable s0 declared in 7 (15) ways (plain, constructor-assigned, initialised, constant, immutable, several types) in the same contract / another contract after / before, x one write of every form (11 assignment operators, ++/--, gray forms) in EVERY expression hole (declaration contexts, statement operands, operands of every expression alternative) and every statement hole of every function kind; thorough adds a second write site; memory_to_calldata: function kind x visibility x data location x named x type x every write form in every statement / expression hole of the body; oracle = reference detectors 8.21–8.24; non-trivial = distinct (detector, reported set) outcomes",
+        "states = files of the write-site space W: a state variable s0 declared in 12 (20) ways (plain, constructor-assigned, initialised, constant, immutable, several types) in the same contract / another contract after / before, x one write of every form (11 assignment operators, ++/--, gray forms) in EVERY expression hole (declaration contexts, statement operands, operands of every expression alternative) and every statement hole of every function kind; thorough adds a second write site; memory_to_calldata: function kind x visibility x data location x named x type x every write form in every statement / expression hole of the body; oracle = reference detectors 8.21–8.24; non-trivial = distinct (detector, reported set) outcomes",
         if tier == Tier::Quick { "one write site, 7 declaration forms, 9 write forms" } else { "two write sites, 15 declaration forms, 21 write forms, all function kinds per statement operand" },
         json!([sample1, sample3]),
     )
